@@ -248,6 +248,7 @@ class State:
         if z3.is_true(d):
             return False
         ta, tb = self.tagmap.get(a.get_id()), self.tagmap.get(b.get_id())
+        ta, tb = (ta[0] if ta else None), (tb[0] if tb else None)     # entries keep their term alive: ids are never recycled
         if ta is not None and tb is not None and ta != tb:
             return True           # different dynamic types (sequence element type / class family): different objects
         key = (a.get_id(), b.get_id())
@@ -279,16 +280,24 @@ class State:
         label = None
         if v.t[0] in ("list", "nd"):
             label = show(v.t)
+            if v.t[1][0] == "obj":
+                # a list of subclass instances may be read back through a field declared with the base class: one tag per
+                # class family (two tags for one list would make the path condition inconsistent, i.e. every goal provable)
+                label = f"{v.t[0]}[obj:{self.ctx.root_class(v.t[1][1])}]"
         elif v.t[0] == "obj":
             label = "obj:" + self.ctx.root_class(v.t[1])      # objects of unrelated class families are different objects
         if label is None:
             return
         tid = self.ctx.type_ids.setdefault(label, len(self.ctx.type_ids) + 1)
         k = _key(v.z)
-        if self.tagmap.get(k) == tid:
+        if k in self.tagmap and self.tagmap[k][0] == tid:
             return
+        if k in self.tagmap:
+            # the same reference met with two different static types: assuming both tags would make the path condition
+            # inconsistent and every goal on it provable - refuse to generate obligations instead (undecided, never a pass)
+            raise Unsupported(f"one reference typed {label} and (earlier) with tag {self.tagmap[k][0]}: conflicting static types")
         if v.none is None:
-            self.tagmap[k] = tid
+            self.tagmap[k] = (tid, v.z)      # the term is stored with its tag, so that its z3 id cannot be reused
         f = z3.Function("ltype", z3.IntSort(), z3.IntSort())(v.z) == tid
         self.assume(z3.Implies(z3.Not(v.none), f) if v.none is not None else f)
 
